@@ -36,6 +36,12 @@ func listVariants(id, verif string) []variant {
 	for _, m := range ms {
 		out = append(out, variant{"seeded", filepath.Base(filepath.Dir(m)), m})
 	}
+	// behaviour-preserving refactors written by independent sub-agents (must stay silent, like keep variants)
+	ms, _ = filepath.Glob(filepath.Join(verif, "refactors", id+"-*", "patch.diff"))
+	sort.Strings(ms)
+	for _, m := range ms {
+		out = append(out, variant{"refactor", filepath.Base(filepath.Dir(m)), m})
+	}
 	return out
 }
 
@@ -130,7 +136,7 @@ func runOneVariant(v variant, id, repo, verif string, known map[string]Finding) 
 		res.newKeys = append(res.newKeys, o.Status+" "+o.Key())
 	}
 	switch v.kind {
-	case "keep":
+	case "keep", "refactor":
 		if len(res.newKeys) == 0 {
 			res.status = "silent"
 		} else {
@@ -153,7 +159,7 @@ func variantsImpl(id, repo, verif string, baseClean bool) map[string]interface{}
 	sem := make(chan struct{}, 6)
 	var wg sync.WaitGroup
 	for i, v := range vs {
-		if v.kind == "keep" && !baseClean {
+		if (v.kind == "keep" || v.kind == "refactor") && !baseClean {
 			results[i] = variantResult{v: v, status: "skipped", note: "base tree is not clean; keep variants are only judged on a passing tree"}
 			continue
 		}
@@ -187,7 +193,7 @@ func variantsImpl(id, repo, verif string, baseClean bool) map[string]interface{}
 		case "missed":
 			fmt.Printf("CHECKER-DEFICIENCY property=%s %s variant %q is not detected\n", id, r.v.kind, r.v.name)
 		case "alarmed":
-			fmt.Printf("CHECKER-DEFICIENCY property=%s keep variant %q raises %v\n", id, r.v.name, r.newKeys)
+			fmt.Printf("CHECKER-DEFICIENCY property=%s %s variant %q raises %v\n", id, r.v.kind, r.v.name, r.newKeys)
 		case "skipped", "invalid":
 			fmt.Printf("variant %s/%s %s: %s\n", r.v.kind, r.v.name, r.status, r.note)
 		default:
@@ -203,7 +209,8 @@ func variantsImpl(id, repo, verif string, baseClean bool) map[string]interface{}
 			"break_total": cnt["break_total"], "break_detected": cnt["break_detected"], "break_missed": cnt["break_missed"],
 			"keep_total": cnt["keep_total"], "keep_silent": cnt["keep_silent"], "keep_alarmed": cnt["keep_alarmed"],
 			"seeded_total": cnt["seeded_total"], "seeded_detected": cnt["seeded_detected"], "seeded_missed": cnt["seeded_missed"],
-			"skipped": cnt["break_skipped"] + cnt["keep_skipped"] + cnt["seeded_skipped"], "invalid": cnt["break_invalid"] + cnt["keep_invalid"] + cnt["seeded_invalid"],
+			"refactor_total": cnt["refactor_total"], "refactor_silent": cnt["refactor_silent"], "refactor_alarmed": cnt["refactor_alarmed"],
+			"skipped": cnt["break_skipped"] + cnt["keep_skipped"] + cnt["seeded_skipped"] + cnt["refactor_skipped"], "invalid": cnt["break_invalid"] + cnt["keep_invalid"] + cnt["seeded_invalid"] + cnt["refactor_invalid"],
 			"details": details,
 			"note":   "self-validation of the checker on scratch copies; a missed break or an alarmed keep is a deficiency of the checker and is reported as such, never as a violation of /repo",
 		},
@@ -217,9 +224,9 @@ func runVariantsOnly(ids []string, repo, verif string) int {
 		fmt.Printf("== variants of %s\n", id)
 		r := variantsImpl(id, repo, verif, true)
 		v := r["variants"].(map[string]interface{})
-		fmt.Printf("-- %s: break %v/%v detected, keep %v/%v silent, seeded %v/%v detected, skipped %v, invalid %v\n", id,
-			v["break_detected"], v["break_total"], v["keep_silent"], v["keep_total"], v["seeded_detected"], v["seeded_total"], v["skipped"], v["invalid"])
-		bad += v["break_missed"].(int) + v["keep_alarmed"].(int) + v["seeded_missed"].(int) + v["invalid"].(int)
+		fmt.Printf("-- %s: break %v/%v detected, keep %v/%v silent, seeded %v/%v detected, refactor %v/%v silent, skipped %v, invalid %v\n", id,
+			v["break_detected"], v["break_total"], v["keep_silent"], v["keep_total"], v["seeded_detected"], v["seeded_total"], v["refactor_silent"], v["refactor_total"], v["skipped"], v["invalid"])
+		bad += v["break_missed"].(int) + v["keep_alarmed"].(int) + v["seeded_missed"].(int) + v["invalid"].(int) + v["refactor_alarmed"].(int)
 	}
 	if bad > 0 {
 		return 1
